@@ -171,16 +171,18 @@ def run_chunk(task: dict):
         names, contents = beh["scheme"]
         w = _world(scratch, names, contents, task.get("large", 200_000))
         ex = GitExec(w) if task["executor"] == "git" else DulExec(w)
-        run = execute(w, ex, beh["steps"], beh["opts"])
+        steps = RandomDriver(*beh["gen"]) if beh.get("gen") else beh["steps"]
+        run = execute(w, ex, steps, beh["opts"])
+        beh = dict(beh, steps=run["done"])
         tid = bi + 1
         runs[tid] = (beh, run)
         st = run["stop"]
-        if st is not None and task["label"].startswith("R:pairs") and st["act"] == "Switch" and st["at"] + 1 < len(beh["steps"]):
+        if st is not None and task["label"].startswith("R:pairs") and st["act"] == "Switch" and st["at"] + 1 < len(todo[bi]["steps"]):
             # the switch t_k -> t_k+1 failed: carry on with the rest of the chain from a fresh checkout of t_k+1
-            rest = beh["steps"][st["at"]:]
+            rest = todo[bi]["steps"][st["at"]:]
             todo.append({"steps": [dict(rest[0], act="Checkout")] + rest[1:], "scheme": beh["scheme"], "opts": beh["opts"]})
         res["n_beh"] += 1
-        res["n_steps"] += len(run["events"]) + (1 if run["stop"] else 0)
+        res["n_steps"] += len(run["done"])
         res["n_events"] += len(run["events"])
         for ev in run["events"]:
             res["acts"][ev["act"]] = res["acts"].get(ev["act"], 0) + 1
@@ -240,7 +242,8 @@ def run_chunk(task: dict):
                 sig_tail = diff_signature(c, f, s, p, ev["h"], ev["i"], ev["w"])
                 if c == "RoundTrip":
                     site = "dulwich/index.py:update_working_tree" if k else "dulwich/index.py:build_index_from_tree|update_working_tree"
-                    sig_tail += f" via={ev['act']}:{beh['opts'].get('checkout' if ev['act'] == 'Checkout' else 'switch')}"
+                    how = "hard" if ev["act"] == "ResetHard" else beh["opts"].get("checkout" if ev["act"] == "Checkout" else "switch")
+                    sig_tail += f" via={ev['act']}:{how}"
                 elif c in ("StageAllComplete", "StageComplete"):
                     site = "dulwich/porcelain/__init__.py:add"
                 else:
@@ -290,7 +293,9 @@ def run_chunk(task: dict):
                                             "clause": "StageAllComplete.treeid", "got": ev["tree_id"]})
         # ---- the behaviour could not be carried through
         st = run["stop"]
-        if st is not None:
+        if st is not None and st["kind"] == "diverged":
+            res["stops"]["diverged:" + st["act"]] = res["stops"].get("diverged:" + st["act"], 0) + 1
+        elif st is not None:
             key = f"{st['kind']}:{st['act']}:{st['exc']}"
             res["stops"][key] = res["stops"].get(key, 0) + 1
             k = st["at"]
@@ -459,20 +464,39 @@ def random_tree(rng, universe, kinds="FXL", contents=(1, 2, 3, 4, 5)):
     return t
 
 
-def random_behaviour(rng: random.Random, length: int):
-    """Random behaviour inside the modelled domain.  The generator keeps its own copy of the
-    triple with the *intended* effect of each action only to choose enabled actions; what is
-    judged is what the repository really does (TLC applies the specification's actions to the
-    observed states)."""
-    U = random_universe(rng)
-    t0 = random_tree(rng, U)
-    trees = [t0] + [random_tree(rng, U) for _ in range(2)]
-    h, i, w = dict(t0), dict(t0), dict(t0)
-    steps = [{"act": "Checkout", "tree": dict(t0)}]
+def valid(m):
+    ps = list(m)
+    return not any(above(p, q) for p in ps for q in ps)
 
-    def covered(p):
-        return [q for q in U if q == p or above(p, q)]
-    for _ in range(length):
+
+class RandomDriver:
+    """Random behaviour inside the modelled domain, chosen step by step from the state *observed*
+    on the repository (so that a defect already reported never makes the driver ask for an action
+    the real state does not admit).  The guards mirror the enabling conditions of
+    WorkTreeStatus.tla; what is judged is what the repository really does (TLC applies the
+    specification's actions to the observed states)."""
+
+    def __init__(self, seed: int, length: int):
+        self.seed, self.length = seed, length
+        rng = self.rng = random.Random(seed)
+        self.U = random_universe(rng)
+        t0 = random_tree(rng, self.U)
+        self.trees = [t0] + [random_tree(rng, self.U) for _ in range(2)]
+        self.k = 0
+
+    def covered(self, p):
+        return [q for q in self.U if q == p or above(p, q)]
+
+    def next(self, h, i, w):
+        rng, U = self.rng, self.U
+        self.k += 1
+        if self.k == 1:
+            return {"act": "Checkout", "tree": dict(self.trees[0])}
+        if self.k > self.length + 1:
+            return None
+        known = lambda m: all(p in U and c[0] in "FXL" and isinstance(c[1], int) for p, c in m.items())   # noqa: E731
+        if not (known(h) and known(i) and known(w)):
+            return None     # the repository holds something the path universe does not know (reported where it arose)
         unstaged = {p for p in i if w.get(p) != i[p]}
         untracked = {p for p in w if p not in i}
         staged = {p for p in set(h) | set(i) if h.get(p) != i.get(p)}
@@ -490,7 +514,7 @@ def random_behaviour(rng: random.Random, length: int):
                 cands.append(("Create", p))
             if p not in w and any(above(p, q) for q in w) and not any(above(q, p) for q in w):
                 cands.append(("DirToFile", p))
-            cov = covered(p)
+            cov = self.covered(p)
             if (p in w or p in i or any(above(p, q) for q in w)) and not any(above(r, p) for r in w) \
                     and not (p in w and any(above(p, r) for r in i)) \
                     and all(all(r in cov for r in i if clash(r, q)) for q in cov if q in w):
@@ -499,75 +523,35 @@ def random_behaviour(rng: random.Random, length: int):
                 cands.append(("Unstage", p))
             if p in i:
                 cands.append(("RmCached", p))
-        cands += [("StageAll", None)] * 3 + [("Commit", None)] * 2 + [("ResetMixed", None)]
-        tracked = set(h) | set(i)
-        if all(u != q and not clash(u, q) for u in w if u not in tracked for q in h):
-            cands.append(("ResetHard", None))
+        cands += [("StageAll", None)] * 3 + [("ResetMixed", None)]
+        if valid(i):
+            cands += [("Commit", None)] * 2
+            tracked = set(h) | set(i)
+            if all(u != q and not clash(u, q) for u in w if u not in tracked for q in h):
+                cands.append(("ResetHard", None))
         if not unstaged and not staged:
-            for t in trees:
+            for t in self.trees:
                 if t != h and all(u != q and not clash(u, q) for u in untracked for q in list(t) + list(h)):
                     cands += [("Switch", t)] * 3
         act, arg = cands[rng.randrange(len(cands))]
         s = {"act": act}
         if act == "Modify":
-            c = rng.choice([x for x in (1, 2, 3, 4, 5) if x != w[arg][1]])
-            w[arg] = (w[arg][0], c)
-            s.update(p=arg, cell=w[arg])
+            s.update(p=arg, cell=(w[arg][0], rng.choice([x for x in (1, 2, 3, 4, 5) if x != w[arg][1]])))
         elif act == "Chmod":
-            w[arg] = ("X" if w[arg][0] == "F" else "F", w[arg][1])
-            s.update(p=arg, cell=w[arg])
-        elif act == "Delete":
-            del w[arg]
-            s.update(p=arg)
+            s.update(p=arg, cell=("X" if w[arg][0] == "F" else "F", w[arg][1]))
         elif act == "Retype":
-            w[arg] = ("F" if w[arg][0] == "L" else "L", w[arg][1])
-            s.update(p=arg, cell=w[arg])
+            s.update(p=arg, cell=("F" if w[arg][0] == "L" else "L", w[arg][1]))
         elif act == "Create":
-            w[arg] = (rng.choice("FXL"), rng.choice((1, 2, 3, 4, 5)))
-            s.update(p=arg, cell=w[arg])
+            s.update(p=arg, cell=(rng.choice("FXL"), rng.choice((1, 2, 3, 4, 5))))
         elif act == "FileToDir":
-            q = rng.choice([q for q in U if above(arg, q)])
-            del w[arg]
-            w[q] = (rng.choice("FXL"), rng.choice((1, 2, 3)))
-            s.update(p=arg, q=q, cell=w[q])
+            s.update(p=arg, q=rng.choice([q for q in U if above(arg, q)]), cell=(rng.choice("FXL"), rng.choice((1, 2, 3))))
         elif act == "DirToFile":
-            for q in [q for q in w if above(arg, q)]:
-                del w[q]
-            w[arg] = (rng.choice("FXL"), rng.choice((1, 2, 3)))
-            s.update(p=arg, cell=w[arg])
-        elif act == "Stage":
-            for q in covered(arg):
-                if q in w:
-                    i[q] = w[q]
-                else:
-                    i.pop(q, None)
+            s.update(p=arg, cell=(rng.choice("FXL"), rng.choice((1, 2, 3))))
+        elif act in ("Delete", "Stage", "Unstage", "RmCached"):
             s.update(p=arg)
-        elif act == "StageAll":
-            i = dict(w)
-        elif act == "Unstage":
-            if arg in h:
-                i[arg] = h[arg]
-            else:
-                i.pop(arg, None)
-            s.update(p=arg)
-        elif act == "RmCached":
-            del i[arg]
-            s.update(p=arg)
-        elif act == "Commit":
-            h = dict(i)
-        elif act == "ResetMixed":
-            i = dict(h)
-        elif act == "ResetHard":
-            tracked = set(h) | set(i)
-            w = {**{p: c for p, c in w.items() if p not in tracked}, **h}
-            i = dict(h)
         elif act == "Switch":
-            tracked = set(h) | set(i)
-            w = {**{p: c for p, c in w.items() if p not in tracked}, **arg}
-            h, i = dict(arg), dict(arg)
             s.update(tree=dict(arg))
-        steps.append(s)
-    return steps
+        return s
 
 
 # --------------------------------------------------------------------------- orchestration
@@ -576,6 +560,8 @@ def chunked(behs, label, executor, scratch, nchunks, large=200_000):
     if not behs:
         return []
     def cost(b):
+        if b.get("gen"):
+            return 3 * (b["gen"][1] + 1)
         return sum(3 if s.get("obs", True) else 1 for s in b["steps"])
     total = sum(cost(b) for b in behs)
     per = max(1, total // max(1, nchunks))
@@ -665,15 +651,17 @@ def run(ctx):
     for t in trees:
         rt_behs.append([{"act": "Checkout", "tree": t, "exp": clean_exp(t)}, {"act": "StageAll", "exp": clean_exp(t)}])
     rnd = random.Random(ctx.seed * 7919 + 18)
-    rand_behs = [random_behaviour(rnd, rnd.randint(4, ctx.pick(10, 14))) for _ in range(ctx.pick(320, 9000))]
+    rand_gens = [(rnd.randrange(1 << 30), rnd.randint(4, ctx.pick(10, 14))) for _ in range(ctx.pick(320, 7000))]
     scratch = ctx.scratch
     tasks = []
     # 0: the specification against git, dulwich not involved (every step observed)
-    sample0 = [[dict(s, obs=True) for s in b] for b in edit_behs[::ctx.pick(14, 40)] + pair_behs[::ctx.pick(16, 10)] + rand_behs[::ctx.pick(8, 12)]]
-    tasks += chunked(with_schemes(sample0, git_opts, SCHEMES), "0:spec-vs-git", "git", scratch, ctx.pick(4, 14))
+    sample0 = [[dict(s, obs=True) for s in b] for b in edit_behs[::ctx.pick(14, 40)] + pair_behs[::ctx.pick(16, 10)]]
+    git0 = with_schemes(sample0, git_opts, SCHEMES)
+    git0 += [{"gen": g, "scheme": SCHEMES[k % len(SCHEMES)], "opts": git_opts(k)} for k, g in enumerate(rand_gens[::ctx.pick(8, 12)])]
+    tasks += chunked(git0, "0:spec-vs-git", "git", scratch, ctx.pick(4, 14))
     git_every = not ctx.quick
     tasks += chunked(with_schemes(edit_behs, lambda k: pick_opts(k, git_every=True), SCHEMES), "R:edits", "dulwich", scratch, ctx.pick(14, 56))
-    tasks += chunked(with_schemes(pair_behs, lambda k: pick_opts(k, git_every=git_every, normal=False), SCHEMES), "R:pairs", "dulwich", scratch, ctx.pick(8, 28))
+    tasks += chunked(with_schemes(pair_behs, lambda k: pick_opts(k, git_every=git_every, normal=False), SCHEMES), "R:pairs", "dulwich", scratch, ctx.pick(14, 28))
     rt = []
     for k, steps in enumerate(rt_behs):
         for m, how in enumerate(CHECKOUT_HOW):
@@ -681,13 +669,14 @@ def run(ctx):
                 continue
             rt.append({"steps": steps, "scheme": SCHEMES[(k + m) % len(SCHEMES)], "opts": dict(pick_opts(k), checkout=how)})
     tasks += chunked(rt, "R:roundtrip", "dulwich", scratch, ctx.pick(2, 4))
-    tasks += chunked(with_schemes(rand_behs, lambda k: pick_opts(k, git_every=True), SCHEMES), "T:random", "dulwich", scratch, ctx.pick(8, 42))
+    rand = [{"gen": g, "scheme": SCHEMES[k % len(SCHEMES)], "opts": pick_opts(k, git_every=True)} for k, g in enumerate(rand_gens)]
+    tasks += chunked(rand, "T:random", "dulwich", scratch, ctx.pick(8, 42))
     if not ctx.quick:
-        big = with_schemes(rand_behs[:240], lambda k: pick_opts(k), [("plain", "binary"), ("nonutf8", "binary")])
+        big = [{"gen": g, "scheme": (("plain", "binary"), ("nonutf8", "binary"))[k % 2], "opts": pick_opts(k)} for k, g in enumerate(rand_gens[:240])]
         tasks += chunked(big, "T:large-files", "dulwich", scratch, 8, large=6_000_000)
     # longest first
     tasks.sort(key=lambda t: -t["cost"])
-    ctx.log(f"{len(tasks)} chunks on {nproc} processes: edits={len(edit_behs)} pair-chains={len(pair_behs)} roundtrip={len(rt)} random={len(rand_behs)} spec-vs-git={len(sample0)}")
+    ctx.log(f"{len(tasks)} chunks on {nproc} processes: edits={len(edit_behs)} pair-chains={len(pair_behs)} roundtrip={len(rt)} random={len(rand_gens)} spec-vs-git={len(git0)}")
     mp = multiprocessing.get_context("fork")
     with mp.Pool(nproc) as pool:
         results = pool.map(run_chunk, tasks, chunksize=1)
